@@ -402,9 +402,18 @@ def run(ctx):
                 ctx.violation("C19/%s/call-history-shape" % hname.split("(")[0].split(" ")[0], "%s: after the call history %s a batch of %d images of %dx%d comes back with shape %s" % (
                     hname, hist[-4:-1], B, H, H, tuple(out.shape)), {"model": hname, "history": hist[-6:]})
                 break
+    # the loss gradient reaches the encoder: a cut graph (detached stage) leaves EVERY encoder parameter without gradient; a single
+    # parameter with an all-zero gradient is a dead unit of a tiny randomly initialised network (seed-dependent), not a violation
+    by_pipe = {}
     for (aname, cname, pn), st_ in gradstat.items():
-        if st_["n"] >= 2 and st_["live"] == 0:        # a parameter may be dead on one tiny input (ReLU), not on all of them
-            ctx.violation("C19/%s/encoder-gradient" % aname, "%s with %s: encoder parameter %s receives an all-zero gradient on all %d inputs tried" % (aname, cname, pn, st_["n"]), {"architecture": aname, "pipeline": cname, "parameter": pn})
+        d_ = by_pipe.setdefault((aname, cname), {"params": 0, "live": 0, "n": st_["n"]})
+        d_["params"] += 1
+        d_["live"] += 1 if st_["live"] > 0 else 0
+    for (aname, cname), d_ in by_pipe.items():
+        ctx.count("pipeline-gradient-summaries")
+        if d_["live"] * 2 < d_["params"]:
+            ctx.violation("C19/%s/encoder-gradient" % aname, "%s with %s: only %d of %d encoder parameters receive a non-zero gradient on any of the %d inputs tried" % (
+                aname, cname, d_["live"], d_["params"], d_["n"]), {"architecture": aname, "pipeline": cname})
     # bandwidth-ratio helper
     for nsl in (1, 2, 3, 4):
         for num, den in ((1, 6), (1, 12), (1, 3), (1, 24), (1, 48)):
